@@ -355,6 +355,12 @@ impl World {
         };
         if let Op::Resp { id: IdRef::Img(i), error: true, .. } = op {
             self.cached.remove(&env.imgs[*i].content);
+            // an error response is the terminal saying it could not use the image: from here on the
+            // reference terminal does not hold it (nor its placements), so a later placement must be
+            // preceded by a new transmission to "refer to a transmitted image"
+            if let Some(id) = env.id_of[*i] {
+                self.term.forget_image(id as u32);
+            }
         }
         if let Op::Resp { error: false, .. } = op {
             subject = None;
